@@ -266,3 +266,33 @@ Proof.
         unfold x5, x. cbn. auto 7.
       * left. split; [reflexivity|]. right. split; [exact Ep|]. unfold ret. cbn. left. reflexivity.
 Qed.
+
+(* ---- routing, as the dump shows it ------------------------------------------------------------------------------------------------------------------------- *)
+Lemma longest_prefix_observe : forall s plat inst,
+  longest_prefix_d (observe s) plat inst = option_map (observe_pq s) (longest_prefix_pq s plat inst).
+Proof.
+  intros s plat inst. unfold longest_prefix_d, longest_prefix_pq, observe. cbn [d_pqs].
+  assert (H : forall l best, fold_left (fun best p =>
+      if (pk_plat (dp_key p) =? plat)%N && is_prefix (pk_prefix (dp_key p)) inst then
+        match best with
+        | Some b => if Nat.ltb (List.length (pk_prefix (dp_key b))) (List.length (pk_prefix (dp_key p))) then Some p else best
+        | None => Some p end else best) (map (observe_pq s) l) (option_map (observe_pq s) best)
+      = option_map (observe_pq s) (fold_left (fun best p =>
+      if (pk_plat (p_key p) =? plat)%N && is_prefix (pk_prefix (p_key p)) inst then
+        match best with
+        | Some b => if Nat.ltb (List.length (pk_prefix (p_key b))) (List.length (pk_prefix (p_key p))) then Some p else best
+        | None => Some p end else best) l best)).
+  { induction l as [|p l IH]; intro best; cbn [map fold_left]; [reflexivity|]. rewrite <- IH. f_equal. cbn [dp_key observe_pq].
+    destruct ((pk_plat (p_key p) =? plat)%N && is_prefix (pk_prefix (p_key p)) inst); [|reflexivity].
+    destruct best as [b|]; cbn [option_map dp_key observe_pq]; [destruct (Nat.ltb _ _); reflexivity|reflexivity]. }
+  exact (H (s_pqs s) None).
+Qed.
+
+Lemma longest_prefix_pq_frame : forall s s' plat inst, s_pqs s' = s_pqs s -> longest_prefix_pq s' plat inst = longest_prefix_pq s plat inst.
+Proof. unfold longest_prefix_pq. intros s s' plat inst ->. reflexivity. Qed.
+
+Lemma inflight_in_dump : forall s k, existsb (fun '(k', _) => dkey_eqb k' k) (d_inflight (observe s)) = match aget dkey_eqb k (s_inflight s) with Some _ => true | None => false end.
+Proof.
+  intros s k. unfold observe. cbn [d_inflight]. induction (s_inflight s) as [|[k1 t1] l IH]; cbn; [reflexivity|].
+  rewrite (eqb_sym_of dkey_eqb dkey_eqb_eq k1 k). destruct (dkey_eqb k k1); [reflexivity|exact IH].
+Qed.
